@@ -701,9 +701,15 @@ func remapBlockHandles(block Block, handleMap []ExpressionHandle) {
 	for i := range block {
 		switch k := block[i].Kind.(type) {
 		case StmtEmit:
-			// Remap emit range
+			// Remap emit range. End is exclusive: it can equal the length of the
+			// old arena, for which there is no mapping, so map the last covered
+			// expression instead.
+			if k.Range.End > k.Range.Start {
+				k.Range.End = remap(k.Range.End-1) + 1
+			} else {
+				k.Range.End = remap(k.Range.End)
+			}
 			k.Range.Start = remap(k.Range.Start)
-			k.Range.End = remap(k.Range.End)
 			block[i].Kind = k
 		case StmtStore:
 			k.Pointer = remap(k.Pointer)
